@@ -5,6 +5,7 @@ import (
 	"io"
 	"runtime"
 
+	"github.com/diskfs/go-diskfs/backend"
 	"github.com/diskfs/go-diskfs/internal/vp"
 	"github.com/diskfs/go-diskfs/internal/vp/vpdev"
 )
@@ -55,10 +56,21 @@ func (d *c18Dev) put(off int64, data []byte) {
 	}
 }
 
-// c18NullDev delivers every read in full and leaves the (zeroed) buffer alone.
-type c18NullDev struct{ vpdev.MemDev }
+// c18EOFDev fails every read.
+type c18EOFDev struct{ vpdev.MemDev }
 
-func (d *c18NullDev) ReadAt(p []byte, off int64) (int, error) { return len(p), nil }
+func (d *c18EOFDev) ReadAt(p []byte, off int64) (int, error) { return 0, io.EOF }
+
+// c18STDev delivers every read in full: a 4-byte SUSP terminator entry followed by zeros.
+type c18STDev struct{ vpdev.MemDev }
+
+func (d *c18STDev) ReadAt(p []byte, off int64) (int, error) {
+	if len(p) == 0 {
+		return 0, nil
+	}
+	p[0], p[1], p[2], p[3] = 'S', 'T', 4, 1 // callers read at least 4 bytes
+	return len(p), nil
+}
 
 // c18AllocBegin/End: the native counterpart of vp.AllocLimit (which only the engine checks):
 // more than limit bytes allocated between the two calls is a panic of the NoPanic region.
@@ -156,10 +168,14 @@ func VP_C18_iso_vd_badmagic() {
 // c18Dirent: dirEntryFromBytesWithJoliet on a record of arbitrary length n (buffer of exactly n bytes:
 // the last record of a directory extent) with arbitrary content.
 func c18Dirent(joliet bool, sig string) {
+	max := 64
+	if sig == "SL" {
+		max = 46 // the component loop of SL is expensive: 12 bytes of system use area
+	}
 	n := vp.Int("n")
 	vp.Assume(n >= 0)
-	vp.Assume(n <= 64)
-	all := vp.Bytes("rec", 64)
+	vp.Assume(n <= max)
+	all := vp.Bytes("rec", max)
 	c18RecDate(all)
 	if sig != "" {
 		// exactly one system use entry, with this signature, right after a 1-byte name (the engine
@@ -222,6 +238,10 @@ func c18Dirents(joliet bool) {
 	vp.Assume(b[34] == 0 || b[34] > 46)
 	vp.Assume(int(b[0]) <= 33+int(b[32])+4 || b[0] > 80)
 	vp.Assume(int(b[40]) <= 33+int(b[72])+4 || b[40] > 40)
+	if joliet {
+		vp.Assume(b[32] <= 8) // short names: the UCS-2 decoding loop is not what this harness is about
+		vp.Assume(b[72] <= 8)
+	}
 	f := &FileSystem{blocksize: 40}
 	vp.Unwind(12)
 	vp.MaxLoop(6)
@@ -309,9 +329,13 @@ func VP_C18_iso_ce_chain() {
 }
 
 // VP_C18_iso_ce_alloc: the continuation length of a CE entry is allocated before it is read.
-func VP_C18_iso_ce_alloc() {
+func c18CEAlloc(empty bool) {
 	const size = 64 << 10
-	dev := &c18NullDev{}
+	var dev backend.Storage = &c18STDev{}
+	if !empty {
+		// the continuation area lies outside the image: the read fails after the buffer was allocated
+		dev = &c18EOFDev{}
+	}
 	f := &FileSystem{blocksize: 2048, suspEnabled: true, backend: dev}
 	rec := make([]byte, 62)
 	rec[0] = 62
@@ -319,17 +343,23 @@ func VP_C18_iso_ce_alloc() {
 	c18RecDate(rec)
 	ce := rec[34:62]
 	copy(ce, "CE")
-	ce[2], ce[3] = 28, 1
+	ce[2], ce[3] = 28, vp.U8("ce.version")
 	binary.LittleEndian.PutUint32(ce[4:], vp.U32("ce.block"))
 	binary.LittleEndian.PutUint32(ce[12:], vp.U32("ce.offset"))
-	binary.LittleEndian.PutUint32(ce[20:], vp.U32("ce.length"))
+	ln := vp.U32("ce.length")
+	if empty {
+		ln = 0
+	}
+	binary.LittleEndian.PutUint32(ce[20:], ln)
 	limit := uint64(2*size + c18Slack)
 	vp.Unwind(4)
 	vp.AllocCap(8)
 	vp.AllocLimit(limit)
 	// KF-C18-28: a continuation area without entries leaves the extension list empty; its last element is
 	// inspected again
-	vp.KnownPanic("KF-C18-28", "iso9660.parseDirEntry)")
+	if empty {
+		vp.KnownPanic("KF-C18-28", "iso9660.parseDirEntry)")
+	}
 	vp.NoPanic()
 	t0 := c18AllocBegin()
 	_, err := parseDirEntry(rec, f)
@@ -341,6 +371,11 @@ func VP_C18_iso_ce_alloc() {
 		vp.Cover("continuation failed")
 	}
 }
+
+func VP_C18_iso_ce_alloc() { c18CEAlloc(false) }
+
+// VP_C18_iso_ce_empty: a continuation area of length 0 at an arbitrary place.
+func VP_C18_iso_ce_empty() { c18CEAlloc(true) }
 
 // c18PathTable: parsePathTable / parseJolietPathTable on n arbitrary bytes.
 func c18PathTable(joliet bool) {
